@@ -161,6 +161,7 @@ func completionPlan(res []int, perm []int, mode string) []string {
 func runC19(ctx *core.Ctx) {
 	runC19Race(ctx)
 	ctx.Wait()
+	runC19Trav(ctx)
 	runC19Fanout(ctx)
 }
 
